@@ -18,6 +18,7 @@
 -/
 import PLV.Lemmas.ConcInit
 import PLV.Lemmas.ConcLedger
+import PLV.Lemmas.ConcSolo
 
 namespace PLV.C03
 open PLV PLV.Conc
@@ -103,6 +104,45 @@ theorem C03_ledger_prefix {l : Level} (hl : l.Inv) (g : Nat) {progs : List (List
   unfold LInv at h
   simp only [LEv.plus, Nat.zero_add] at h
   exact h
+
+/-! ### the interleaved model extends the sequential one
+
+The theorems above are about the small-step machine; C01 / C02 / C07 / C15 are about the big-step
+functions. These two statements say the machines agree wherever both apply, for every level, every
+operation and every program — so a serial schedule of the interleaved machine *is* a sequential
+history, and everything proved about histories holds of it. -/
+
+/-- **one call, alone, is the big-step function** (`Conc.solo_eq_seq`): in any configuration, if
+    thread `i` is between calls and runs its next call while nobody else moves, the shared state goes
+    from level `l` to exactly `seqOp l g op` — `Level.addOrder`, `Level.matchOrder`,
+    `Level.removeOrder`, `Level.amend`, a read, or a draw from the id generator — and the thread
+    records exactly that call's result. -/
+theorem C03_solo_eq_seq (l : Level) (g : Nat) (ts : List Thread) (i : Nat) (op : COp) (rest : List COp)
+    (rets : List String) (hi : ts[i]? = some { pc := .idle, todo := op :: rest, rets := rets }) (hok : OpOk op) :
+    ∃ n, Conc.run ⟨Shared.ofLevel l g, ts⟩ (List.replicate n i) =
+      ⟨Shared.ofLevel (seqOp l g op).1 (seqOp l g op).2.1,
+       ts.set i { pc := .idle, todo := rest, rets := rets ++ [(seqOp l g op).2.2] }⟩ :=
+  solo_eq_seq l g ts i op rest rets hi hok
+
+/-- **a serial schedule is a sequential history**: for any programs there is a schedule (thread 0 to
+    completion, then thread 1, …) after which every thread has returned, the shared state is the
+    level the sequential model computes for the concatenated history, and each thread has recorded
+    the sequential results of its own calls. -/
+theorem C03_serial (l : Level) (g : Nat) (progs : List (List COp)) (hok : ∀ ops ∈ progs, ∀ op ∈ ops, OpOk op) :
+    ∃ sched, Conc.run (Cfg.init l g progs) sched =
+        ⟨Shared.ofLevel (serial l g progs).1 (serial l g progs).2.1, (serial l g progs).2.2.map doneThread⟩ ∧
+      allDone (Conc.run (Cfg.init l g progs) sched) = true := by
+  obtain ⟨sched, e⟩ := serial_run progs l g [] hok
+  refine ⟨sched, ?_, ?_⟩
+  · simpa [Cfg.init] using e
+  · have e' : Conc.run (Cfg.init l g progs) sched =
+        ⟨Shared.ofLevel (serial l g progs).1 (serial l g progs).2.1, (serial l g progs).2.2.map doneThread⟩ := by
+      simpa [Cfg.init] using e
+    rw [e']; exact serial_allDone _
+
+/-! non-vacuity: the serial execution of the program below is computed by the sequential model -/
+example : (serial ((Level.new 100).addOrder ⟨⟨false, 1⟩, 100, 10, .sell, 1, .gtc, .iceberg 5⟩) 0
+    [[.amend ⟨false, 1⟩ 7], [.add ⟨⟨false, 2⟩, 100, 3, .sell, 2, .gtc, .standard⟩, .readVis]]).1.vis = 10 := by decide
 
 /-! non-vacuity: an admissible two-thread program on a one-order level -/
 example : ProgAdm ((Level.new 100).addOrder ⟨⟨false, 1⟩, 100, 10, .sell, 1, .gtc, .iceberg 5⟩)
